@@ -181,6 +181,9 @@ MOLS = {
     "H4+": ([("H", (0, 0, 0)), ("H", (0, 0, 0.9)), ("H", (0, 0, 2.0)), ("H", (0, 0, 3.1))], 1, 1),
     "H4t": ([("H", (0, 0, 0)), ("H", (0, 0, 0.9)), ("H", (0, 0, 2.0)), ("H", (0, 0, 3.1))], 0, 2),
     "LiH": ([("Li", (0, 0, 0)), ("H", (0, 0, 1.6))], 0, 0),
+    # an effective core potential on Li (the rarely used ecp option): the one-body integrals carry the ECP operator
+    "LiH-ecp": ([("Li", (0, 0, 0)), ("H", (0, 0, 1.6))], 0, 0, {"basis": {"Li": "crenbl", "H": "sto-3g"}, "ecp": {"Li": "crenbl"}}),
+    "BeH-ecp": ([("Be", (0, 0, 0)), ("H", (0, 0, 1.3))], 0, 1, {"basis": {"Be": "crenbl", "H": "sto-3g"}, "ecp": {"Be": "crenbl"}}),
 }
 
 
@@ -189,9 +192,10 @@ def e_structures(tier):
     base = [("H2", None, False), ("H2stretch", None, False), ("H3+", None, False), ("H4", None, False), ("H4", [0], False), ("H4", [3], False), ("H4", [0, 3], False), ("H4+", None, False),
             ("H4+", None, True), ("H2", None, True), ("H4t", None, False), ("LiH", [0, 3, 4, 5], False), ("LiH", 1, False), ("H4+", [[0], [0, 3]], True),
             # UHF, per-spin lists whose frozen OCCUPIED orbitals differ between the spin channels (both non-empty), with and without frozen virtuals
-            ("H4+", [[1], [0]], True), ("H4t", [[0, 2], [0, 3]], True), ("H4t", [[1], [0]], True), ("H4t", [[0, 1], [0]], True), ("H4+", [[0, 3], [0, 2]], True)]
+            ("H4+", [[1], [0]], True), ("H4t", [[0, 2], [0, 3]], True), ("H4t", [[1], [0]], True), ("H4t", [[0, 1], [0]], True), ("H4+", [[0, 3], [0, 2]], True),
+            ("LiH-ecp", "virtuals_from_3", False), ("BeH-ecp", "virtuals_from_3", False)]
     if tier == "quick":
-        base = [base[i] for i in (0, 3, 4, 6, 7, 8, 11, 14, 15)]
+        base = [base[i] for i in (0, 3, 4, 6, 7, 8, 11, 14, 15, 19, 20)]
     for mol, fz, uhf in base:
         for mapping in ("JW", "BK", "scBK", "JKMN"):
             for utd in (False, True):
@@ -206,8 +210,11 @@ def get_mol(name, frozen, uhf):
     key = (name, str(frozen), uhf)
     if key not in _CACHE:
         from tangelo import SecondQuantizedMolecule
-        xyz, q, spin = MOLS[name]
-        _CACHE[key] = SecondQuantizedMolecule(xyz, q, spin, basis="sto-3g", frozen_orbitals=frozen, uhf=uhf)
+        xyz, q, spin = MOLS[name][:3]
+        kw = dict(MOLS[name][3]) if len(MOLS[name]) > 3 else {"basis": "sto-3g"}
+        if frozen == "virtuals_from_3":
+            frozen = list(range(3, SecondQuantizedMolecule(xyz, q, spin, frozen_orbitals=None, uhf=uhf, **kw).n_mos))
+        _CACHE[key] = SecondQuantizedMolecule(xyz, q, spin, frozen_orbitals=frozen, uhf=uhf, **kw)
     return _CACHE[key]
 
 
@@ -271,7 +278,7 @@ def o7(h, st):
     import openfermion as of
     from tangelo import SecondQuantizedMolecule
     from tangelo.toolboxes.ansatz_generator.penalty_terms import combined_penalty
-    xyz, q, spin = MOLS[st["mol"]]
+    xyz, q, spin = MOLS[st["mol"]][:3]
     def sector_energy(mol):
         n, ne, s = mol.n_active_sos, mol.n_active_electrons, mol.active_spin
         Hq = h.call(MT, "fermion_to_qubit_mapping", mol.fermionic_hamiltonian, "JW", n, ne, False, s)
